@@ -424,10 +424,140 @@ def rule_r3(F, rep):
     rep.trust("Jsonnet specification static checking rules (binder by binder), transcribed as rules/c09.py:SPEC")
 
 
+def rule_r5(F, rep):
+    R = rep.rule("C09.R5", "no child expression is skipped: in every arm of analyze_expr's dispatch on the expression kind, each "
+                 "operand of type `&Expr` of that kind is handed on for analysis (a call of an analyze_* function, a queued "
+                 "State::Expr / stack item, or — for import operands — an inspection of its kind) on *every* path that does not end "
+                 "in a static error; optional and list-valued children are handed on on some path. A fast path that lowers a node "
+                 "without visiting one of its children (a constant-folded `if`, a short-circuited operator) leaves scoping errors in "
+                 "that child unreported, although the property covers code that is never evaluated")
+    EK = "rsjsonnet_lang::ast::ExprKind"
+    fn = F.fn("<%s>::analyze_expr" % A)
+    body = fn.body
+    fl = envflow.FnEnvFlow(F, fn)
+    ek = F.adt(EK)
+    cr = ek["_crate"]
+    best = None
+    for i, b in enumerate(body.blocks):
+        t = b["t"]
+        if t["k"] != "switch":
+            continue
+        last = [x for x in b["s"] if x["k"] == "assign"]
+        if last and last[-1]["rv"]["k"] == "discr" and last[-1]["rv"].get("adt") == EK:
+            if best is None or len(t["arms"]) > len(body.blocks[best]["t"]["arms"]):
+                best = i
+    if best is None or len(body.blocks[best]["t"]["arms"]) < len(ek["variants"]) // 2:
+        raise kwalk.WalkLimit("analyze_expr: dispatch on the expression kind not found")
+    byd = F.variant_by_discr(EK)
+    heads = {b0 for b0, i0, s0 in body.assigns() if s0["rv"]["k"] == "discr" and s0["rv"].get("adt") == "<%s>::analyze_expr::State" % A}
+    n = 0
+    for dv, tgt in body.blocks[best]["t"]["arms"]:
+        vn = byd.get(dv)
+        v = next((x for x in ek["variants"] if x["n"] == vn), None)
+        if v is None:
+            continue
+        must, some = [], []
+        for k, f in enumerate(v["fields"]):
+            ts = cr.types[f["t"]]["s"]
+            if "ast::Expr<" in ts and ts.startswith("&") and "[" not in ts and "Option" not in ts:
+                must.append(k)
+            elif "ast::" in ts and not any(x in ts for x in ("ast::Ident", "ast::BinaryOp", "ast::UnaryOp", "ast::Visibility")):
+                some.append(k)
+        if not must and not some:
+            continue
+        tag = "ExprKind.%s." % vn
+
+        def child_of(op):
+            if not isinstance(op, dict) or op.get("k") not in ("copy", "move"):
+                return None
+            for el in fl.ast_path(op):
+                if isinstance(el, str) and el.startswith(tag):
+                    rest = el[len(tag):]
+                    if rest.isdigit():
+                        return int(rest)
+            return None
+
+        def on_stmt(w, bb, idx, st, env):
+            if w.pre or st["k"] != "assign":
+                return None
+            rv = st["rv"]
+            if rv["k"] == "agg" and rv.get("ak") == "adt":
+                if rv.get("adt") == AERR:
+                    return ("err",)
+                if rv["adt"].startswith("<%s>::analyze_expr::" % A):
+                    cs = sorted({c for c in (child_of(x) for x in rv["xs"]) if c is not None})
+                    if cs:
+                        return ("children", tuple(cs))
+            if rv["k"] == "discr" and rv.get("adt") == EK and vn.startswith("Import"):
+                x = dict(rv["p"])
+                x["k"] = "copy"
+                c = child_of(x)
+                if c is not None:
+                    return ("child", c)
+            return None
+
+        def on_term(w, bb, t, env):
+            if w.pre:
+                return None
+            if bb in heads and env.get("#left"):
+                return kwalk.STOP
+            env["#left"] = 1
+            if t["k"] == "call":
+                nm = callee_name(t) or ""
+                if nm.endswith("FromResidual>::from_residual"):
+                    return ("err",)         # `?` handing back an error reported further down
+                hands_on = nm.startswith("<%s>::" % A)
+                if not hands_on and any("t" in x and w.body.ty(x["t"])["k"] == "closure" for x in t["xs"]):
+                    # `child.map(|e| self.analyze_expr(e, ..))`: the closure must itself call an analysis function
+                    for x in t["xs"]:
+                        if "t" in x and w.body.ty(x["t"])["k"] == "closure":
+                            c2 = F.fn_opt(w.body.ty(x["t"])["d"])
+                            if c2 is not None and any((callee_name(t2) or "").startswith("<%s>::analyze_" % A) for _, t2 in c2.body.calls()):
+                                hands_on = True
+                if hands_on:
+                    ms = [child_of(x) for x in t["xs"]]
+                    ms = [m for m in ms if m is not None]
+                    if ms:
+                        return ("child", ms[0]) if len(ms) == 1 else ("children", tuple(sorted(set(ms))))
+            return None
+        w = kwalk.Walker(F, body, on_stmt=on_stmt, on_term=on_term, max_states=100000, refine=False)
+        outs = w.run(tgt, {})
+        rep.states += w.states_explored
+        paths = []
+        for kind, marks, _ in outs:
+            if kind not in ("stop", "return") or ("err",) in marks:
+                continue
+            got = set()
+            for m in marks:
+                if m[0] == "child":
+                    got.add(m[1])
+                elif m[0] == "children":
+                    got |= set(m[1])
+            paths.append(got)
+        if not paths:
+            continue
+        for k in must:
+            n += 1
+            ok = all(k in g for g in paths)
+            rep.ob(R, "%s.%d|every-path" % (vn, k), ok, {"node": vn, "child": k, "paths": len(paths)} if vn in ("If", "Binary") else None)
+            if not ok:
+                rep.violation(R, "%s|child-skipped|%s.%d" % (fn.q, vn, k), "analyze_expr lowers a `%s` node on some path without handing "
+                              "its operand #%d on for analysis: scoping errors inside it are not reported" % (vn, k), fn.loc)
+        for k in some:
+            n += 1
+            ok = any(k in g for g in paths)
+            rep.ob(R, "%s.%d|some-path" % (vn, k), ok)
+            if not ok:
+                rep.violation(R, "%s|child-never-analysed|%s.%d" % (fn.q, vn, k), "analyze_expr never hands the operand #%d of a `%s` node "
+                              "on for analysis" % (k, vn), fn.loc)
+    rep.floor(R, n, 25, "child positions of expression kinds")
+
+
 def run(F, rep, tier):
     rep.attempt(rule_r1, F, rep)
     rep.attempt(rule_r2, F, rep)
     rep.attempt(rule_r3, F, rep)
+    rep.attempt(rule_r5, F, rep)
     from . import arity
     rep.attempt(arity.rule_default_env, F, rep, "C09.R4")
     rep.assume("agreement of the evaluator's other run-time environments with the same table is not decided")
